@@ -3,7 +3,7 @@
 import ast
 
 from .. import AnalysisError, tables
-from ..canon import canon, linform, single_assignments
+from ..canon import canon, cexpr, linform, single_assignments
 from ..lin import lin_eq, lin_sub, lin_add, linear
 from ..pm import src
 from ..q import FA, call_name, compare_parts, guard_facts, has_fact, walk_no_nested, conjuncts
@@ -45,8 +45,8 @@ def run(ctx):
             n_normal += 1
             ctx.ob("R-SIB", "C17.1", f, "normal return hands back that threshold", fa.dominates(th[0], nid), "")
         else:
-            facts = [(src(e), t) for e, t in guard_facts(fa, nid)]
-            ok = (f"{N} == 0", True) in facts and ("self.min_remove < 1", True) in facts
+            facts = [(canon(e), t) for e, t in guard_facts(fa, nid)]
+            ok = (f"{N} == 0", True) in facts and (cexpr("self.min_remove < 1"), True) in facts
             ctx.ob("R-SIB", "C17.1", f, "the only other return is the documented `min_remove < 1 and nothing to remove` early exit", ok, f"`{src(r)}` under {facts}", node=r)
     ctx.require(n_normal == 1, "expected exactly one `return threshold`")
     # n comes from the chosen method
@@ -166,7 +166,7 @@ def run(ctx):
     # ---- C17.5 up-front validation ---------------------------------------------------
     cc = ctx.fn(INS + ".check_configuration")
     tests = [canon(n.test) for n in walk_no_nested(cc.node) if isinstance(n, ast.If) and any(isinstance(x, ast.Raise) for x in n.body)]
-    ctx.ob("R-ORDER", "C17.5", cc, "min_samples > nlive and min_remove > nlive are rejected", "self.min_samples > self.nlive" in tests and "self.min_remove > self.nlive" in tests, f"{tests}")
+    ctx.ob("R-ORDER", "C17.5", cc, "min_samples > nlive and min_remove > nlive are rejected", cexpr("self.min_samples > self.nlive") in tests and cexpr("self.min_remove > self.nlive") in tests, f"{tests}")
     ini = ctx.fn(INS + ".__init__")
     ia = FA(ini)
     cl = ia.find_calls("self.check_configuration")
